@@ -97,7 +97,7 @@ def attrObsT (o : AttrObs) : Term :=
     tag "back" [match o.back with | none => sym "none" | some r => outT attrT r], useT o.use]
 
 def nlriObsT (o : NlriObs) : Term :=
-  tag "n" [nlriT o.n, apiNlriT o.api, outT nlriT o.back, outT bytes o.enc]
+  tag "n" [nlriT o.n, apiNlriT o.api, outT nlriT o.back, outT bytes o.enc, unitOutT o.msg, unitOutT o.ins]
 
 def obsT : Obs → Term
   | .notStored true => tag "not-stored" [sym "rejected"]
@@ -108,6 +108,9 @@ def obsT : Obs → Term
   | .decodeErr => tag "decode" [sym "err"]
   | .decodePanic => tag "decode" [sym "panic"]
   | .nlris l => tag "nlris" (l.map nlriObsT)
+  | .addRefused => tag "grpc" [sym "add-refused"]
+  | .listed n ys => tag "grpc" [tag "listed" [apiNlriT n, list (ys.map apiAttrT)]]
+  | .listPanic => tag "grpc" [sym "panic"]
   | .exploreOk => tag "x" [sym "ok"]
   | .exploreFail w => tag "x" [sym "fail", sym w]
   | .unmodelled => list [sym "bad-case"]
@@ -241,6 +244,7 @@ def caseOf? : Term → Option Case
   | .list [.atom "attr-api", x] => (apiAttrOf? x).map .attrApi
   | .list [.atom "nlri-wire", f, b] => do pure (.nlriWire (← famOf? f) (← asBytes? b))
   | .list [.atom "nlri-api", x] => (apiNlriOf? x).map .nlriApi
+  | .list [.atom "grpc", x, as] => do pure (.grpc (← apiNlriOf? x) (← asListOf? apiAttrOf? as))
   | .list (.atom "x" :: .atom kind :: _) => some (.explore kind)
   | _ => none
 
@@ -251,8 +255,9 @@ def attrObsOf? : Term → Option AttrObs
   | _ => none
 
 def nlriObsOf? : Term → Option NlriObs
-  | .list [.atom "n", n, x, b, e] => do
-      pure { n := (← nlriOf? n), api := (← apiNlriOf? x), back := (← outOf? nlriOf? b), enc := (← outOf? asBytes? e) }
+  | .list [.atom "n", n, x, b, e, m, i] => do
+      pure { n := (← nlriOf? n), api := (← apiNlriOf? x), back := (← outOf? nlriOf? b), enc := (← outOf? asBytes? e),
+             msg := (← unitOutOf? m), ins := (← unitOutOf? i) }
   | _ => none
 
 def obsOf? : Term → Option Obs
@@ -263,6 +268,10 @@ def obsOf? : Term → Option Obs
   | .list [.atom "decode", .atom "err"] => some .decodeErr
   | .list [.atom "decode", .atom "panic"] => some .decodePanic
   | .list (.atom "nlris" :: l) => (l.mapM nlriObsOf?).map .nlris
+  | .list [.atom "grpc", .atom "add-refused"] => some .addRefused
+  | .list [.atom "grpc", .atom "panic"] => some .listPanic
+  | .list [.atom "grpc", .list [.atom "listed", n, ys]] => do
+      pure (.listed (← apiNlriOf? n) (← asListOf? apiAttrOf? ys))
   | .list [.atom "x", .atom "ok"] => some .exploreOk
   | .list [.atom "x", .atom "fail", .atom w] => some (.exploreFail w)
   | .list [.atom "bad-case"] => some .unmodelled
